@@ -51,7 +51,10 @@ def specs(draw, tier):
             for a in range(dim):
                 m = Rk + 4 * wk + dmax
                 if periodic[a]:
-                    x = origin[a] + draw(st.floats(-0.5, 1.5, **finite)) * L[a]
+                    if draw(st.integers(0, 3)) == 0:  # centre within a fraction of a cell of the periodic boundary (either side)
+                        x = origin[a] + draw(st.sampled_from([0.0, 1.0])) * L[a] + draw(st.sampled_from([-0.3, -0.1, -0.03, -0.005, 0.0, 0.005, 0.03, 0.1, 0.3])) * spacing[a]
+                    else:
+                        x = origin[a] + draw(st.floats(-0.5, 1.5, **finite)) * L[a]
                 else:
                     x = origin[a] + m + draw(st.floats(0, 1, **finite)) * (L[a] - 2 * m)
                 pos.append(float(x))
